@@ -72,7 +72,13 @@ namespace sqf::runtime
             /// <summary>
             /// Returned on success.
             /// </summary>
-            ok
+            ok,
+            /// <summary>
+            /// The exit behavior restarted a scope that has no instructions.
+            /// Nothing can be executed; the caller gets control back so that
+            /// its limits (slice, maximum runtime) apply to such a loop too.
+            /// </summary>
+            restarted
         };
         enum class seekpos
         {
@@ -182,7 +188,7 @@ namespace sqf::runtime
         {
             if (m_position == position_invalid)
             {
-                return (*m_instruction_set.begin())->diag_info();
+                return m_instruction_set.empty() ? sqf::runtime::diagnostics::diag_info{} : (*m_instruction_set.begin())->diag_info();
             }
             else if (m_position == m_instruction_set.size())
             {
@@ -283,10 +289,12 @@ namespace sqf::runtime
                     m_exit_behavior = m_exit_behavior->get_behavior();
                     seek(0, ::sqf::runtime::frame::seekpos::start);
                     clear_values_helper(runtime);
+                    if (m_instruction_set.empty()) { return result::restarted; }
                     goto start; // do not call here, reuse current stack
                 case behavior::result::seek_start:
                     seek(0, ::sqf::runtime::frame::seekpos::start);
                     clear_values_helper(runtime);
+                    if (m_instruction_set.empty()) { return result::restarted; }
                     goto start; // do not call here, reuse current stack
                 case behavior::result::exchange:
                     m_instruction_set = m_exit_behavior->get_instruction_set(*this);
